@@ -273,6 +273,10 @@ func c17Pool() []c17Variant {
 		v("to-one-value", base, func(r j.Resource) { r.Set("one", "y") }),
 		v("to-many-value", base, func(r j.Resource) { r.Set("many", []string{"a", "c"}) }),
 		v("to-many-shorter", base, func(r j.Resource) { r.Set("many", []string{"a"}) }),
+		v("to-many-joined", base, func(r j.Resource) { r.Set("many", []string{"a,b"}) }),
+		v("to-many-empty-id", base, func(r j.Resource) { r.Set("many", []string{""}) }),
+		v("to-many-comma-split", base, func(r j.Resource) { r.Set("many", []string{"a", "b", ""}) }),
+		v("to-many-comma-split-2", base, func(r j.Resource) { r.Set("many", []string{"a", "b,"}) }),
 		v("to-many-empty", base, func(r j.Resource) { r.Set("many", []string{}) }),
 		v("id", base, func(r j.Resource) { r.Set("id", "i2") }),
 		v("extra-attr", func() TypeD { d := base(); d.Attrs = append(d.Attrs, AttrD{"e", str}); return d }, nil),
